@@ -104,6 +104,7 @@ for h, t, b, tier in [
  ("c08_kmp_fix_acag_n8", 159, "KMP, concrete pattern acag x all texts of length 8 over {a,c,g}", "quick"),
  ("c08_kmp_fix_fib_n12", 730, "KMP, concrete Fibonacci-word pattern abaababa x all texts of length 12 over {a,b,c}", "thorough"),
  ("c08_kmp_fix_ruler_n12", 717, "KMP, concrete ruler pattern abacabad x all texts of length 12 over {a,b,c,d}", "thorough"),
+ ("c08_kmp_fix_nest_n12", 985, "KMP, concrete pattern abaabaa (three nested borders) x all texts of length 12 over {a,b,c}", "thorough"),
  ("c08_shiftand_fix_aaa_n7", 14, "ShiftAnd, concrete pattern aaa x all texts of length 7 over {a,b}", "quick"),
  ("c08_shiftand_fix_nest_n12", 26, "ShiftAnd, concrete pattern abaabaa x all texts of length 12 over {a,b,c}", "quick"),
  ("c08_bom_fix_a_n3", 11, "BOM, concrete pattern a x all texts of length 3 over {a,b} (the only BOM instance within reach)", "quick"),
